@@ -172,6 +172,14 @@ Theorem C11_fragments_predict : forall v sq a lo hi,
 Proof. exact (fun v sq a lo hi => conj (frag_predict_guards v sq) (frag_predict_values a lo hi)). Qed.
 Print Assumptions C11_fragments_predict.
 
+(* a vectorized observation always has a leading dimension, and it is the batch dimension of the tensor given to the network
+   (so the `hd` default in Model.Shapes.obs_to_tensor is never used) *)
+Theorem C11_vectorized_batch_is_leading_dim : forall sp o t,
+  obs_to_tensor sp o = Some (true, t) ->
+  exists n r, maybe_transpose sp o = Some (n :: r) /\ t = n :: space_shape sp.
+Proof. exact obs_to_tensor_batch_is_leading_dim. Qed.
+Print Assumptions C11_vectorized_batch_is_leading_dim.
+
 (* ---- non-vacuity ---- *)
 Example C11_ex :
   predict_shape (SBox [3; 36; 36] true) [2] [5; 36; 36; 3] = Some [5; 2] /\
